@@ -277,6 +277,8 @@ func init() {
 		Jobs: func(tier string, seed int64) []Job {
 			dd := chunk("defaultdev", "prod", 27, 27, Job{Timeout: 10 * time.Minute})
 			dd = append(dd, chunk("devwriter", "prod", 12, 12, Job{Timeout: 10 * time.Minute})...)
+			dd = append(dd, chunk("closedfile", "prod", 40, 20, Job{Timeout: 10 * time.Minute})...)
+			dd = append(dd, chunk("closedfile", "test", 20, 20, Job{Timeout: 10 * time.Minute})...)
 			// under go test the text formats append the details of an error that carries a stack trace to the record
 			if tier == "thorough" {
 				dd = append(dd, chunk("enum", "test", 7*5*155*1024/4, 150000, Job{Timeout: 60 * time.Minute})...)
